@@ -22,8 +22,11 @@ import traceback
 from typing import Any, Callable, Iterable, Sequence
 
 ROOT = os.path.dirname(os.path.dirname(os.path.abspath(__file__)))
-EVIDENCE_DIR = os.path.join(ROOT, "evidence")
-REPLAY_DIR = os.path.join(ROOT, "replays")
+# VERIF_OUT redirects evidence and replays (used when trying seeded changes from a scratch worktree, so that the
+# committed evidence of the unchanged tree is not overwritten); registered commands never set it
+_OUT = os.environ.get("VERIF_OUT") or ROOT
+EVIDENCE_DIR = os.path.join(_OUT, "evidence")
+REPLAY_DIR = os.path.join(_OUT, "replays")
 KNOWN_FILE = os.path.join(ROOT, "known_findings.json")
 NWORKERS = int(os.environ.get("VERIF_WORKERS", "16"))
 
